@@ -110,3 +110,49 @@ package render
 //@   callassert loadSTLBinary size == header.Count*50 + 84
 //@   ensures [returns] true
 //@ end
+
+//-----------------------------------------------------------------------------
+// C13 / C11: STL writers and the binary loader. encoding/binary, bufio and os
+// are external: a call is an event carrying (by value) what was passed; how
+// the bytes are laid out is assumed (A6), which value goes into which field of
+// which record, in which order, is proved.
+
+//@ spec stlvec(f [3]float32, v v3.Vec) = f[0] == v.X && f[1] == v.Y && f[2] == v.Z
+//@ spec stlrec(d STLTriangle, t *sdf.Triangle3) = stlvec(d.Vertex1, t[0]) && stlvec(d.Vertex2, t[1]) && stlvec(d.Vertex3, t[2]) && stlvec(d.Normal, t.Normal())
+
+//@ func SaveSTL
+//@   property C13 C11
+//@   id records
+//@   invariant 0 rangeindex >= -1 && rangeindex < len(mesh)
+//@   body 0 nev("encoding/binary.Write") == 1
+//@   body 0 stlrec(evarg("encoding/binary.Write", 0, 2), mesh[rangeindex + 1])
+//@   ensures [returns] true
+//@ end
+
+//@ func SaveSTL
+//@   property C13 C11
+//@   id header
+//@   invariant 0 true
+//@   atentry 0 nev("encoding/binary.Write") == 1 && evarg("encoding/binary.Write", 0, 2).Count == len(mesh) % 4294967296
+//@   ensures [flush-at-the-end] nev("encoding/binary.Write") == 0 && isnil(r) ==> nev("(*bufio.Writer).Flush") == 1
+//@ end
+
+//@ func writeSTL$1
+//@   property C13 C11
+//@   id records
+//@   invariant 0 true
+//@   invariant 1 rangeindex >= -1 && rangeindex < len(ts) && count == (pre(count) + rangeindex + 1) % 4294967296
+//@   body 1 nev("encoding/binary.Write") == 1
+//@   body 1 stlrec(evarg("encoding/binary.Write", 0, 2), ts[rangeindex + 1])
+//@   ensures [flush-then-seek-then-header] nev("print") == 0 ==> evbefore("(*bufio.Writer).Flush", "(*os.File).Seek") && evbefore("(*os.File).Seek", "encoding/binary.Write")
+//@   ensures [one-header-rewrite] nev("print") == 0 ==> nev("encoding/binary.Write") == 1
+//@   ensures [header-carries-the-count] nev("print") == 0 ==> evarg("encoding/binary.Write", 0, 2).Count == count
+//@ end
+
+//@ func loadSTLBinary
+//@   property C13
+//@   id records
+//@   invariant 0 rangeindex >= -1 && rangeindex < len(mesh)
+//@   body 0 stlvec(d.Vertex1, (*mesh[rangeindex + 1])[0]) && stlvec(d.Vertex2, (*mesh[rangeindex + 1])[1]) && stlvec(d.Vertex3, (*mesh[rangeindex + 1])[2])
+//@   ensures [count-from-header] isnil(err) ==> len(r) == header.Count
+//@ end
